@@ -13,8 +13,10 @@ use crate::selector::{Selector, SelectorList};
 pub(crate) struct ExtendedSelector(Rc<RefCell<SelectorList>>);
 
 impl PartialEq for ExtendedSelector {
+    // Identity, consistent with `Hash` below: two style rules with equal
+    // selectors are still two distinct rules that must both be extended.
     fn eq(&self, other: &Self) -> bool {
-        self.0 == other.0
+        Rc::ptr_eq(&self.0, &other.0)
     }
 }
 
